@@ -2,15 +2,17 @@ package main
 
 // Facts/Rfc822.lean (C13): the value of ids.InternalIDKey and every call site of
 // rfc822.SetHeaderValue / SetHeaderValueNoMemCopy outside the rfc822 package with the key it passes; the
-// parsers of a partial's numbers; the string functions rfc822.NewHeader / Header.Fields / Header.FieldsNot
-// normalise field names with.
+// parsers of a partial's numbers; the functions rfc822.NewHeader / Header.Fields / Header.FieldsNot
+// normalise field names with, and the shape of rfc822.foldKey.
 
 import (
 	"fmt"
 	"go/ast"
+	"go/printer"
 	"go/token"
 	"io/fs"
 	"path/filepath"
+	"reflect"
 	"sort"
 	"strconv"
 	"strings"
@@ -174,7 +176,100 @@ func factsRfc822(c *factsCtx, outdir string) error {
 		calls []string
 	}
 	var foldSites []foldSite
-	for _, f := range c.parseDir("rfc822") {
+	rfc822Files := c.parseDir("rfc822")
+	localFuncs := map[string]bool{} // the package's own top-level functions (foldKey, newHeaderParser, ...)
+	for _, f := range rfc822Files {
+		for _, d := range f.Decls {
+			if fd, ok := d.(*ast.FuncDecl); ok && fd.Recv == nil {
+				localFuncs[fd.Name.Name] = true
+			}
+		}
+	}
+	// --- the shape of rfc822.foldKey (the normal form of a field name since fix 047f712): its loops, the
+	// conditions of its if statements, its simple statements, and the byte range / offset it maps
+	show := func(n ast.Node) string {
+		if n == nil || (func() bool { v := reflect.ValueOf(n); return v.Kind() == reflect.Ptr && v.IsNil() })() {
+			return ""
+		}
+		var sb strings.Builder
+		_ = printer.Fprint(&sb, c.fset, n)
+		return strings.Join(strings.Fields(sb.String()), " ")
+	}
+	charVal := func(e ast.Expr) (int, bool) {
+		if bl, ok := e.(*ast.BasicLit); ok && bl.Kind == token.CHAR {
+			if r, _, _, err := strconv.UnquoteChar(strings.Trim(bl.Value, "'"), '\''); err == nil {
+				return int(r), true
+			}
+		}
+		return 0, false
+	}
+	var fkLoops, fkConds, fkStmts []string
+	fkLo, fkHi, fkDelta, fkConsistent, fkFound := -1, -1, -1, true, false
+	setOnce := func(dst *int, v int) {
+		if *dst == -1 {
+			*dst = v
+		} else if *dst != v {
+			fkConsistent = false
+		}
+	}
+	for _, f := range rfc822Files {
+		for _, d := range f.Decls {
+			fd, ok := d.(*ast.FuncDecl)
+			if !ok || fd.Body == nil || fd.Recv != nil || fd.Name.Name != "foldKey" {
+				continue
+			}
+			fkFound = true
+			ast.Inspect(fd.Body, func(n ast.Node) bool {
+				switch x := n.(type) {
+				case *ast.ForStmt:
+					fkLoops = append(fkLoops, show(x.Init)+"; "+show(x.Cond)+"; "+show(x.Post))
+				case *ast.RangeStmt:
+					fkLoops = append(fkLoops, "range "+show(x.X))
+				case *ast.IfStmt:
+					cond := show(x.Cond)
+					if x.Init != nil {
+						cond = show(x.Init) + "; " + cond
+					}
+					if x.Else != nil {
+						cond += " (else)"
+					}
+					fkConds = append(fkConds, cond)
+				case *ast.BlockStmt:
+					for _, st := range x.List {
+						switch st.(type) {
+						case *ast.AssignStmt, *ast.IncDecStmt, *ast.ReturnStmt, *ast.ExprStmt, *ast.BranchStmt, *ast.GoStmt, *ast.DeferStmt, *ast.SwitchStmt:
+							fkStmts = append(fkStmts, show(st))
+						}
+					}
+				case *ast.BinaryExpr:
+					if x.Op == token.LEQ {
+						if v, ok := charVal(x.X); ok {
+							setOnce(&fkLo, v)
+						}
+						if v, ok := charVal(x.Y); ok {
+							setOnce(&fkHi, v)
+						}
+					} else if x.Op != token.LAND && x.Op != token.SUB && x.Op != token.LSS {
+						fkConsistent = false // any other comparison / arithmetic is not the shape this fact describes
+					}
+				case *ast.AssignStmt:
+					if x.Tok == token.ADD_ASSIGN && len(x.Rhs) == 1 {
+						if be, ok := x.Rhs[0].(*ast.BinaryExpr); ok && be.Op == token.SUB {
+							a, ok1 := charVal(be.X)
+							b, ok2 := charVal(be.Y)
+							if ok1 && ok2 {
+								setOnce(&fkDelta, a-b)
+							}
+						}
+					} else if x.Tok != token.DEFINE && x.Tok != token.ASSIGN {
+						fkConsistent = false
+					}
+				}
+				return true
+			})
+		}
+	}
+	for _, f := range rfc822Files {
 		for _, d := range f.Decls {
 			fd, ok := d.(*ast.FuncDecl)
 			if !ok || fd.Body == nil {
@@ -201,6 +296,9 @@ func factsRfc822(c *factsCtx, outdir string) error {
 							seen[q] = true
 						}
 					}
+					if id, ok := call.Fun.(*ast.Ident); ok && localFuncs[id.Name] {
+						seen[id.Name] = true
+					}
 				}
 				return true
 			})
@@ -215,7 +313,23 @@ func factsRfc822(c *factsCtx, outdir string) error {
 	sort.Slice(foldSites, func(i, j int) bool { return foldSites[i].fn < foldSites[j].fn })
 	var b strings.Builder
 	b.WriteString("namespace Gluon.Facts\n\n")
-	b.WriteString("/-- the strings / bytes / textproto / unicode functions called in rfc822.NewHeader, Header.Fields and\n    Header.FieldsNot (how field names are normalised for comparison) -/\n")
+	leanStrList := func(xs []string) string {
+		var qs []string
+		for _, x := range xs {
+			qs = append(qs, leanStr(x))
+		}
+		return "[" + strings.Join(qs, ", ") + "]"
+	}
+	b.WriteString("/-- rfc822.foldKey, the normal form field names are compared in: the headers of its loops, the conditions of\n    its if statements, its simple statements (source order), and the byte range [lo, hi] it shifts by delta\n    (`none` = foldKey not found, or it has comparisons / arithmetic of another shape) -/\n")
+	fmt.Fprintf(&b, "def foldKeyLoops : List String := %s\n", leanStrList(fkLoops))
+	fmt.Fprintf(&b, "def foldKeyConds : List String := %s\n", leanStrList(fkConds))
+	fmt.Fprintf(&b, "def foldKeyStmts : List String := %s\n", leanStrList(fkStmts))
+	if fkFound && fkConsistent && fkLo >= 0 && fkHi >= 0 && fkDelta >= 0 {
+		fmt.Fprintf(&b, "def foldKeyRange : Option (Nat × Nat × Nat) := some (%d, %d, %d)\n\n", fkLo, fkHi, fkDelta)
+	} else {
+		b.WriteString("def foldKeyRange : Option (Nat × Nat × Nat) := none\n\n")
+	}
+	b.WriteString("/-- the strings / bytes / textproto / unicode functions and the package's own functions called in\n    rfc822.NewHeader, Header.Fields and Header.FieldsNot (how field names are normalised for comparison) -/\n")
 	b.WriteString("def headerNameCalls : List (String × List String) := [")
 	for i, fsite := range foldSites {
 		if i > 0 {
